@@ -265,7 +265,7 @@ func (p *specParser) expr(minPrec int) SpecExpr {
 
 func (p *specParser) unary() SpecExpr {
 	t := p.peek()
-	if t.kind == "op" && (t.text == "!" || t.text == "-" || t.text == "^" || t.text == "&") {
+	if t.kind == "op" && (t.text == "!" || t.text == "-" || t.text == "^" || t.text == "&" || t.text == "*") {
 		p.next()
 		return &SUnary{Op: t.text, X: p.unary()}
 	}
@@ -442,6 +442,7 @@ type Clause struct {
 	Text  string
 	Loop  int // for invariants
 	Line  string
+	At    string // assert: the callee at whose call sites the assertion is checked (arg0.. are the call's arguments)
 }
 
 type SpecFn struct {
@@ -451,12 +452,15 @@ type SpecFn struct {
 	Body   SpecExpr // nil => uninterpreted
 	Rec    bool
 	Opaque bool // declared as an uninterpreted function plus a defining axiom triggered on its applications
+	Pkg    string // import path of the package whose contract file defines it ("" for stand-alone spec files)
+	Abstract bool // opaque, and the defining axiom is only available inside lemma proofs
 }
 
 type Axiom struct {
-	Name string
-	Expr SpecExpr
-	Text string
+	Name   string
+	Expr   SpecExpr
+	Text   string
+	Proved bool // comes from a `lemma [... use]`: discharged as its own obligation, not an assumption
 }
 
 type Contract struct {
@@ -538,6 +542,8 @@ func parseLabel(s string) (props []string, label string, rest string) {
 	return
 }
 
+var assertAtRe = regexp.MustCompile(`^at\s+([^\s:]+)\s*:\s*(.*)$`)
+
 var clauseKeywords = map[string]bool{"func": true, "external": true, "requires": true, "ensures": true, "loop": true,
 	"modifies": true, "pure": true, "mode": true, "safety": true, "assert": true, "panics": true, "specfn": true,
 	"axiom": true, "lemma": true, "inline": true, "option": true, "unroll": true, "typeinv": true, "sweep": true, "uses-global": true, "let": true, "ghost": true}
@@ -602,11 +608,20 @@ func loadContractFile(cs *ContractSet, path, pkgPath string) error {
 				return fail(fmt.Errorf("clause outside func"))
 			}
 			props, label, r := parseLabel(rest)
+			at := ""
+			if kw == "assert" {
+				// assert [label] at CALLEE: E — checked immediately before every call of CALLEE in the body
+				m := assertAtRe.FindStringSubmatch(r)
+				if m == nil {
+					return fail(fmt.Errorf("assert needs `at <callee>: E`"))
+				}
+				at, r = m[1], m[2]
+			}
 			e, err := parseSpec(r)
 			if err != nil {
 				return fail(err)
 			}
-			c := &Clause{Kind: kw, Props: props, Label: label, Expr: e, Text: r, Line: ln}
+			c := &Clause{Kind: kw, Props: props, Label: label, Expr: e, Text: r, Line: ln, At: at}
 			for _, p := range props {
 				cur.Props[p] = true
 			}
@@ -712,6 +727,7 @@ func loadContractFile(cs *ContractSet, path, pkgPath string) error {
 			if err != nil {
 				return fail(err)
 			}
+			sf.Pkg = pkgPath
 			cs.SpecFns[sf.Name] = sf
 		case "axiom":
 			_, label, r := parseLabel(rest)
@@ -777,6 +793,11 @@ func loadContractFile(cs *ContractSet, path, pkgPath string) error {
 			}
 			lm.Expr = e
 			cs.Lemmas = append(cs.Lemmas, lm)
+			if strings.HasSuffix(label, "-use") || label == "use" {
+				// `lemma [Cxx name use] E`: proved as its own obligation AND available as an axiom to every query
+				// that mentions its spec functions
+				cs.Axioms = append(cs.Axioms, &Axiom{Name: label, Expr: e, Text: r, Proved: true})
+			}
 		default:
 			return fail(fmt.Errorf("unknown clause keyword %q", kw))
 		}
@@ -785,14 +806,15 @@ func loadContractFile(cs *ContractSet, path, pkgPath string) error {
 }
 
 // specfn name(a T, b T) R = body
-var specFnRe = regexp.MustCompile(`^(rec\s+|opaque\s+)?(\w+)\s*\(([^)]*)\)\s*([\w\[\]\.\*]+)\s*(=\s*(.*))?$`)
+var specFnRe = regexp.MustCompile(`^(rec\s+|opaque\s+|abstract\s+)?(\w+)\s*\(([^)]*)\)\s*([\w\[\]\.\*]+)\s*(=\s*(.*))?$`)
 
 func parseSpecFn(s string) (*SpecFn, error) {
 	m := specFnRe.FindStringSubmatch(s)
 	if m == nil {
 		return nil, fmt.Errorf("bad specfn %q", s)
 	}
-	sf := &SpecFn{Name: m[2], Ret: m[4], Rec: strings.HasPrefix(m[1], "rec"), Opaque: strings.HasPrefix(m[1], "opaque")}
+	sf := &SpecFn{Name: m[2], Ret: m[4], Rec: strings.HasPrefix(m[1], "rec"), Opaque: strings.HasPrefix(m[1], "opaque") || strings.HasPrefix(m[1], "abstract"),
+		Abstract: strings.HasPrefix(m[1], "abstract")}
 	if strings.TrimSpace(m[3]) != "" {
 		var pending []string
 		for _, p := range strings.Split(m[3], ",") {
